@@ -169,6 +169,63 @@ Definition arr_loc (s : ast) (src : option loc) (fresh : loc) : option loc :=
   | AAbsent => None
   end.
 
+Definition new_atoms_of (r : row) (abase : loc) (atoms : list loc) : list loc :=
+  match r_atom r with Copied => mapi_from (fun j _ => abase + j) 0 atoms | _ => atoms end.
+Definition atom_cells (r : row) (h : heap) (base adbase : loc) (atoms : list loc) : list cell :=
+  mapi_from (fun j a =>
+    match r_atom r, get h a with
+    | Copied, CAtom p d par => CAtom p (dict_loc (r_aattrib r) d (adbase + j)) (new_parent base (r_aparent r) par)
+    | _, _ => CFree
+    end) 0 atoms.
+Definition adict_cells (r : row) (h : heap) (atoms : list loc) : list cell :=
+  mapi_from (fun (j : nat) a =>
+    match r_atom r, get h a with
+    | Copied, CAtom p d par => dict_cell h (r_aattrib r) d
+    | _, _ => CFree
+    end) 0 atoms.
+Definition remap (e : est) (atoms new_atoms : list loc) (a : loc) : loc :=
+  match e with
+  | ERemap => match index_of a atoms with Some i => nth i new_atoms a | None => a end
+  | _ => a
+  end.
+Definition no_brow : bondrow := mk_brow Odd Odd Odd ROdd EOdd.
+Definition brow_of (r : row) : bondrow := match r_bonds r with Some b => b | None => no_brow end.
+Definition bond_cells (br : bondrow) (h : heap) (base bdbase : loc) (atoms new_atoms bonds : list loc) : list cell :=
+  mapi_from (fun j b =>
+    match b_obj br, get h b with
+    | Copied, CBond a1 a2 p d par =>
+        CBond (remap (b_ends br) atoms new_atoms a1) (remap (b_ends br) atoms new_atoms a2) p
+              (dict_loc (b_attrib br) d (bdbase + j)) (new_parent base (b_parent br) par)
+    | _, _ => CFree
+    end) 0 bonds.
+Definition bdict_cells (br : bondrow) (h : heap) (bonds : list loc) : list cell :=
+  mapi_from (fun (j : nat) b =>
+    match b_obj br, get h b with
+    | Copied, CBond a1 a2 p d par => dict_cell h (b_attrib br) d
+    | _, _ => CFree
+    end) 0 bonds.
+Definition new_bonds_of (br : bondrow) (bbase : loc) (bonds : list loc) : list loc :=
+  match b_obj br with Copied => mapi_from (fun j _ => bbase + j) 0 bonds | _ => bonds end.
+(* the real constructors look every bond end up in a map keyed by the source's atoms: KeyError otherwise *)
+Definition ends_found (h : heap) (atoms bonds : list loc) : bool :=
+  forallb (fun b => match get h b with
+                    | CBond a1 a2 _ _ _ =>
+                        match index_of a1 atoms, index_of a2 atoms with Some _, Some _ => true | _, _ => false end
+                    | _ => true end) bonds.
+Definition alist_loc_of (r : row) (al base : loc) : loc := match r_alist r with Shared => al | _ => base + 1 end.
+Definition alist_cell_of (r : row) (new_atoms : list loc) : cell :=
+  match r_alist r with Shared => CFree | _ => CList new_atoms end.
+Definition blist_loc_of (r : row) (bl : option loc) (base : loc) : option loc :=
+  match r_bonds r with
+  | None => None
+  | Some b => match b_list b, bl with Shared, Some l => Some l | _, _ => Some (base + 2) end
+  end.
+Definition blist_cell_of (r : row) (bl : option loc) (new_bonds : list loc) : cell :=
+  match r_bonds r with
+  | None => CFree
+  | Some b => match b_list b, bl with Shared, Some _ => CFree | _, _ => CList new_bonds end
+  end.
+
 Definition copy_row (r : row) (g : given) (dcls : Z) (h : heap) (o : loc) : option (heap * loc) :=
   match get h o with
   | CMol _ sc al bl co ch we at_ =>
@@ -181,63 +238,17 @@ Definition copy_row (r : row) (g : given) (dcls : Z) (h : heap) (o : loc) : opti
       let adbase := abase + n in
       let bbase := adbase + n in
       let bdbase := bbase + m in
-      let new_atoms := match r_atom r with
-                       | Copied => mapi_from (fun j _ => abase + j) 0 atoms
-                       | _ => atoms end in
-      let atom_cells := mapi_from (fun j a =>
-            match r_atom r, get h a with
-            | Copied, CAtom p d par => CAtom p (dict_loc (r_aattrib r) d (adbase + j)) (new_parent base (r_aparent r) par)
-            | _, _ => CFree
-            end) 0 atoms in
-      let adict_cells := mapi_from (fun j a =>
-            match r_atom r, get h a with
-            | Copied, CAtom p d par => dict_cell h (r_aattrib r) d
-            | _, _ => CFree
-            end) 0 atoms in
-      let remap (e : est) (a : loc) : loc :=
-            match e with
-            | ERemap => match index_of a atoms with Some i => nth i new_atoms a | None => a end
-            | _ => a
-            end in
-      let br := match r_bonds r with Some b => b | None => mk_brow Odd Odd Odd ROdd EOdd end in
-      let bond_cells := mapi_from (fun j b =>
-            match b_obj br, get h b with
-            | Copied, CBond a1 a2 p d par =>
-                CBond (remap (b_ends br) a1) (remap (b_ends br) a2) p (dict_loc (b_attrib br) d (bdbase + j))
-                      (new_parent base (b_parent br) par)
-            | _, _ => CFree
-            end) 0 bonds in
-      let bdict_cells := mapi_from (fun j b =>
-            match b_obj br, get h b with
-            | Copied, CBond a1 a2 p d par => dict_cell h (b_attrib br) d
-            | _, _ => CFree
-            end) 0 bonds in
-      let new_bonds := match b_obj br with
-                       | Copied => mapi_from (fun j _ => bbase + j) 0 bonds
-                       | _ => bonds end in
-      let alist_loc := match r_alist r with Shared => al | _ => base + 1 end in
-      let alist_cell := match r_alist r with Shared => CFree | _ => CList new_atoms end in
-      let blist_loc := match r_bonds r with
-                       | None => None
-                       | Some b => match b_list b, bl with Shared, Some l => Some l | _, _ => Some (base + 2) end
-                       end in
-      let blist_cell := match r_bonds r with
-                        | None => CFree
-                        | Some b => match b_list b, bl with Shared, Some _ => CFree | _, _ => CList new_bonds end
-                        end in
-      (* the real constructors look every bond end up in a map keyed by the source's atoms: KeyError otherwise *)
-      let ends_found := forallb (fun b => match get h b with
-                                          | CBond a1 a2 _ _ _ =>
-                                              match index_of a1 atoms, index_of a2 atoms with Some _, Some _ => true | _, _ => false end
-                                          | _ => true end) bonds in
-      let root := CMol dcls (if r_scal r then sc else g_scal g) alist_loc blist_loc
+      let new_atoms := new_atoms_of r abase atoms in
+      let br := brow_of r in
+      let root := CMol dcls (if r_scal r then sc else g_scal g) (alist_loc_of r al base) (blist_loc_of r bl base)
                        (arr_loc (r_coords r) co (base + 3)) (arr_loc (r_charges r) ch (base + 4))
                        (arr_loc (r_weights r) we (base + 5)) (dict_loc (r_attrib r) at_ (base + 6)) in
-      if match b_ends br with ERemap => negb ends_found | _ => false end then None else
-      Some (h ++ [root; alist_cell; blist_cell;
+      if match b_ends br with ERemap => negb (ends_found h atoms bonds) | _ => false end then None else
+      Some (h ++ [root; alist_cell_of r new_atoms; blist_cell_of r bl (new_bonds_of br bbase bonds);
                   arr_cell h (r_coords r) co (g_coords g); arr_cell h (r_charges r) ch (g_charges g);
                   arr_cell h (r_weights r) we (g_weights g); dict_cell h (r_attrib r) at_]
-              ++ atom_cells ++ adict_cells ++ bond_cells ++ bdict_cells, base)
+              ++ atom_cells r h base adbase atoms ++ adict_cells r h atoms
+              ++ bond_cells br h base bdbase atoms new_atoms bonds ++ bdict_cells br h bonds, base)
   | _ => None
   end.
 
